@@ -10,6 +10,7 @@
 //!       arrives | `cr c` connection ready again | `cc c` peer closes connection | `ce c` a released, still busy connection's
 //!       readiness poll answers with an error (its transport stays open) | `run`
 //!       | `t ms` (real sleep, tokio's paused clock advanced by as much, no task runs) | `mark`
+//!       | `co r` a request that holds a connection is dropped outside any tokio runtime
 //!       | `hold` another thread takes the pool's mutex and keeps it for 10 ms of real time: the next op runs into it (for
 //!         the model nothing happens: whoever needs the mutex waits for it)
 //!       | `shutdown` the runtime that hosts the spawned tasks is shut down (every task is dropped) while the pool lives on;
@@ -381,7 +382,7 @@ impl Session {
                 let st = self.w.lock().unwrap().conns.get(c).cloned();
                 let held = { let w = self.w.lock().unwrap(); self.reqs.iter().any(|(r, rq)| rq.status == Status::Exec && w.execs.iter().any(|(er, ec, _)| er == r && *ec == c)) };
                 match st {
-                    Some(st) if st.open.load(Ordering::SeqCst) && st.busy.load(Ordering::SeqCst) && !st.failed.load(Ordering::SeqCst) && !held && Arc::strong_count(&st) > 1 => {
+                    Some(st) if st.open.load(Ordering::SeqCst) && st.busy.load(Ordering::SeqCst) && !st.failed.load(Ordering::SeqCst) && !held && Arc::strong_count(&st) > 2 => {
                         st.failed.store(true, Ordering::SeqCst);
                         st.busy.store(false, Ordering::SeqCst);
                         let ws: Vec<Waker> = st.wakers.lock().unwrap().drain(..).collect();
@@ -425,7 +426,19 @@ fn run_case(cfg: &[&str], ops: &[Vec<&str>]) -> String {
     let mut unreliable = false;
     for op in ops {
         let t0 = std::time::Instant::now();
-        if op.first() == Some(&"shutdown") {
+        if op.first() == Some(&"co") {
+            // a request that holds a connection is dropped where there is no tokio runtime (sync code driving the client with
+            // `block_on` step by step gives up between two steps): whatever `Pooled::drop` does about it, the connection has not
+            // reported ready and must not be found in the pool afterwards
+            let r: usize = op.get(1).and_then(|s| s.parse().ok()).unwrap_or(9999);
+            let fut = match sess.reqs.get_mut(&r) { Some(rq) if rq.status == Status::Exec => { rq.status = Status::Done; rq.fut.take() } _ => None };
+            let res = match fut {
+                Some(f) => { let _ = std::panic::catch_unwind(std::panic::AssertUnwindSafe(move || drop(f))); "D" }
+                None => "N",
+            };
+            sess.last_snap = snapshot(&sess.svc, &sess.w);
+            out.push(format!("{res} {}", sess.last_snap));
+        } else if op.first() == Some(&"shutdown") {
             // dropping the runtime drops every task spawned on it; the service, its pool and the request futures live on
             drop(rt);
             rt = new_rt();
@@ -752,6 +765,7 @@ fn gen_mode(r: &mut Rng, _i: u64, timed: bool) -> String {
                 8,                                                                                   // run
                 if timed { 6 } else { 0 },                                                           // tick
                 if blind { 1 } else if busy.is_empty() { 0 } else { 3 },                            // readiness error
+                if ex.is_empty() { 0 } else { 2 },                                                   // dropped outside a runtime
             ];
             if contended && r.chance(1, 5) { ops.push("hold".to_string()); }
             match r.weighted(&weights) {
@@ -781,6 +795,7 @@ fn gen_mode(r: &mut Rng, _i: u64, timed: bool) -> String {
                 }
                 7 => emit!("run".to_string()),
                 9 => { let c = if blind || busy.is_empty() { r.below(6) } else { *r.pick(&busy) as u64 }; emit!(format!("ce {c}")); }
+                10 => { let q = *r.pick(&ex) as u64; ops.push(format!("co {q}")); sess.apply(&["c", &q.to_string()]).await; }
                 _ => emit!(format!("t {}", if r.chance(1, 2) { 150 } else { 5 })),
             }
         }
